@@ -303,6 +303,7 @@ class ModuleNormaliser:
         self.inv = inv
         self.log = []
         self.flagged = set()      # qualnames normalised heuristically (rename-back)
+        self.reshaped = set()
         self.counter = itertools.count()
         self.defs = {}            # qualname -> (FunctionDef, owner node, class name or None)
         self._collect(tree, "", None)
@@ -539,29 +540,39 @@ class ModuleNormaliser:
         that assignment; the fresh local is propagated back later when it is single-assigned."""
         if not isinstance(st, (ast.Assign, ast.Return, ast.Expr, ast.AugAssign)) or st.value is None:
             return None
-        cands = []
-        for c in ast.walk(st.value):
-            if isinstance(c, (ast.Lambda, ast.ListComp, ast.SetComp, ast.DictComp, ast.GeneratorExp, ast.IfExp, ast.BoolOp)):
-                # conditional / repeated evaluation: do not hoist out of these
-                inner = {id(x) for x in ast.walk(c)} - {id(c)}
-                cands = [x for x in cands if id(x) not in inner]
-                continue
+        # nodes of the statement's expression in evaluation (depth-first, left-to-right) order
+        order, parents = [], {}
+
+        def dfs(n, par):
+            parents[id(n)] = par
+            order.append(n)
+            for ch in ast.iter_child_nodes(n):
+                dfs(ch, n)
+        dfs(st.value, None)
+        cond_kinds = (ast.Lambda, ast.ListComp, ast.SetComp, ast.DictComp, ast.GeneratorExp, ast.IfExp, ast.BoolOp)
+        call = None
+        for i, c in enumerate(order):
             if isinstance(c, ast.Call) and c is not st.value and self._helper_target(c, q, cls):
-                cands.append(c)
-        blocked = set()
-        for c in ast.walk(st.value):
-            if isinstance(c, (ast.Lambda, ast.ListComp, ast.SetComp, ast.DictComp, ast.GeneratorExp, ast.IfExp, ast.BoolOp)):
-                blocked |= {id(x) for x in ast.walk(c)} - {id(c)}
-        cands = [c for c in cands if id(c) not in blocked]
-        if len(cands) != 1:
+                anc, p_ = set(), parents[id(c)]
+                while p_ is not None:
+                    anc.add(id(p_))
+                    p_ = parents[id(p_)]
+                if any(isinstance(a, cond_kinds) for a in order if id(a) in anc):
+                    continue      # conditionally / repeatedly evaluated: cannot be hoisted
+                # everything evaluated before the call must be pure (ancestors complete after it)
+                before = [n for n in order[:i] if id(n) not in anc]
+                impure = [n for n in before if isinstance(n, (ast.Await, ast.Yield, ast.YieldFrom, ast.NamedExpr)) or (isinstance(n, ast.Call) and not is_pure(n))]
+                if impure:
+                    return None
+                call = c
+                break
+        if call is None:
             return None
-        call = cands[0]
         hq, recv = self._helper_target(call, q, cls)
         body = [x for x in self.defs[hq][0].body if not _is_doc(x)]
         if len(body) == 1 and isinstance(body[0], ast.Return):
             return None       # expression-level inlining handles it
         tmp = f"r__h{next(self.counter)}"
-        # purity of the remainder of the statement
         probe = clone(st)
         target_txt = ast.dump(call)
 
@@ -576,7 +587,7 @@ class ModuleNormaliser:
                 return n
         r = R()
         probe = r.visit(probe)
-        if not r.done or not is_pure(probe.value):
+        if not r.done:
             return None
         if isinstance(st, ast.Assign) and not all(is_pure(_loadify(t)) for t in st.targets):
             return None
@@ -841,7 +852,7 @@ class ModuleNormaliser:
                 rename[a] = r
         elif added or removed:
             if added:
-                self.flagged.add(q)     # shape differs in a way that was not normalised
+                self.reshaped.add(q)    # shape differs in a way that was not normalised (information only)
         if rename:
             taken = set(cur_names) | set(cur_params)
             if any(r in taken and r not in rename for r in rename.values()):
